@@ -149,7 +149,7 @@ func guardDesc(cd Cond) string {
 			return neg + "range-next"
 		}
 		if l, ok := x.Tuple.(*ssa.Lookup); ok {
-			return neg + "lookup-ok(" + operandDesc(l.X) + ")"
+			return neg + "lookup-ok(" + operandDesc(l.X) + "[" + operandDesc(l.Index) + "])"
 		}
 	case *ssa.Lookup:
 		return neg + "lookup(" + operandDesc(x.X) + "[" + operandDesc(x.Index) + "])"
